@@ -123,6 +123,15 @@ def curated_programs() -> list[dict]:
                          "leaf": {"units": {"r": 1}, "vers": [_t("leaf", 1)]},
                          "ghost": {"units": {"r": 1}, "vers": [_t("noexec", 5), _t("leaf", 5)]}},
                "plan": [DRY, RUN, {"k": "edit", "t": "ghost"}, RUN]})
+    # 11. opted-out and execution-scoped caching: duplicates of a cache_scope=NONE task all run, a
+    #     cache_scope=CSE task is deduplicated inside an execution but re-executed by the next one
+    ps.append({"ns": "cur11", "res": ["r"], "limits": {"r": 2}, "root": {"t": "main", "arg": 1},
+               "tasks": {"main": {"units": {}, "vers": [_t("calls", 0, [_c("none", "c", 1), _c("mid", "c", 1),
+                                                                     _c("cse", "c", 1), _c("none", "p", 0)])]},
+                         "mid": {"units": {}, "vers": [_t("calls", 0, [_c("none", "c", 1), _c("cse", "c", 1)])]},
+                         "none": {"units": {"r": 1}, "scope": "NONE", "vers": [_t("leaf", 1)]},
+                         "cse": {"units": {"r": 1}, "scope": "CSE", "vers": [_t("leaf", 2)]}},
+               "plan": [RUN, RUN, DRY]})
     return [progen.normalize(p) for p in ps]
 
 
